@@ -159,6 +159,7 @@ def run(ctx: Ctx):
     # lists / tuples / dict displays / constructor calls nested in each other: a run with fix,update (and more), then a run with any approved set
     from .. import nestassign as na
     na.check_second_run(ctx, 200 if not ctx.thorough else 3000, "C08")
+    na.check_never_twice(ctx, 100 if not ctx.thorough else 1500, "C08")
 
 
 def _consistent(c):
@@ -179,6 +180,9 @@ def _canon(v, old):
 
 
 def replay(ctx: Ctx, data):
+    if isinstance(data.get("case"), dict) and data["case"].get("kind") == "never-twice":
+        from .. import nestassign as na
+        return na.replay_never(data["case"])
     if isinstance(data.get("case"), dict) and data["case"].get("kind") == "nest-twice":
         from .. import nestassign as na
         return na.replay_case(data["case"])
